@@ -911,10 +911,37 @@ def _wrappers(ctx) -> None:
                                                    and any(y == ("name", "Iterable") for y in _st(x[2][1]))
                                                    for x in list(_st(t[1])) + list(_st(d))):
                     seq_ok = True
+    # ... and a None entry is a day count too (dates + [1, None, 3] keeps None at that position): the test that admits the sequence,
+    # evaluated for an entry that is None, holds
+    def pred_for_none(v, y):
+        k = v[0]
+        if k == "bool":
+            vs = [pred_for_none(x, y) for x in v[2]]
+            if v[1] == "or":
+                return True if any(x is True for x in vs) else (False if all(x is False for x in vs) else None)
+            return False if any(x is False for x in vs) else (True if all(x is True for x in vs) else None)
+        if k == "un" and v[1] == "Not":
+            r = pred_for_none(v[2], y)
+            return None if r is None else not r
+        if k == "cmp" and v[1] in ("Is", "IsNot") and y in (v[2], v[3]) and ("const", "NoneType", None) in (v[2], v[3]):
+            return v[1] == "Is"
+        if k == "call" and v[1] == ("name", "isinstance") and len(v[2]) == 2 and v[2][0] == y:
+            return False                      # None is an instance of none of int / bool / ...
+        return None
+    none_ok = None
+    for e in it.events:
+        if e.kind == "elem" and e.term[0] == "obj" and it.objs[e.term[1]].kind in ("genexp", "listcomp") and e.loops:
+            lp_ = it.loops[e.loops[-1]]
+            if lp_.iter is not None and is_other(lp_.iter) and any(
+                    x == ("call", ("name", "all"), (e.term,), ()) for ev2 in it.events for c_, _p in ev2.conds for x in _st(c_)):
+                r = pred_for_none(e.value, ("elem", lp_.iter, lp_.id))
+                none_ok = (r is True) if none_ok is None else (none_ok and r is True)
+    if seq_ok and none_ok is False:
+        seq_ok = False
     ctx.ob("e.wrappers", f, "date-add-sequence", seq_ok, "a plain sequence of day counts is normalised to a vector of them", f.node,
            message="_Date.__add__: a plain sequence of day counts (ANY non-string iterable: list, tuple, range, deque) does not reach the "
-                   "day arithmetic - the test is missing or limited to some sequence types: `dates + range(3)` falls through to the generic "
-                   "kernel and returns (date, int) pairs")
+                   "day arithmetic - the test is missing, limited to some sequence types, or refuses a None entry: `dates + range(3)` / "
+                   "`dates + [1, None, 3]` falls through to the generic kernel and returns (date, int) pairs")
     # a _Date object may hold datetimes (a date vector promoted in place stays a _Date): the midnight widening
     # datetime.combine(x, ...) of an ELEMENT must not be applied to an element that already is a datetime (it would drop its time)
     wprobs = []
